@@ -254,6 +254,14 @@ theorem pairs_disjoint (n : Nat) :
   · exact List.Nodup.map (fun a b (h : 0 + 2 * a = 0 + 2 * b) => by omega) List.nodup_range
   · exact List.Nodup.map (fun a b (h : 1 + 2 * a = 1 + 2 * b) => by omega) List.nodup_range
 
+/-- Within a phase the pairs do not interfere: the number each decision compares with its draw is
+`p_swap` of the two replicas that occupied its positions when the phase started (so
+`swapProb_exact` applies to each of them), evaluated or skipped according to that pair's flag. -/
+theorem phase_decisions_independent {H : Type} (I : Iface H) (pos : Nat) (gs : List (Replica H))
+    (eqs : List Bool) (s : RS) :
+    (performSwaps I pos gs eqs s).2.1.map (fun d => (d.p, d.evaluated)) = pairProbs I gs eqs :=
+  performSwaps_probs I pos gs eqs s
+
 /-! ## 7. The rayon routine that pre-draws the uniforms is the serial routine -/
 
 /-- `parallel_perform_swaps` (all uniforms drawn first, then all decisions) returns the same
